@@ -29,6 +29,11 @@ pub fn install(base: &[u32], strict: bool) {
         }
         STRICT = strict;
     }
+    // natively the table is not used (the real evaluator runs); skip its draw so later draws stay aligned
+    #[cfg(not(kani))]
+    {
+        let _ = crate::sym::native::next();
+    }
     #[cfg(kani)]
     unsafe {
         // entries are constrained to 1..=7462 where they are read (`entry`), which avoids a 128-step loop here
